@@ -182,3 +182,41 @@ def enumLang : RE → Option (List (List Nat))
   | _ => some [[]]
 
 end RTV.Re
+
+/-! ### one capture group
+`endsCap g` is `ends` that also threads the span of the last completed capture of group number `g` along every
+backtracking path (what `match.span(g)` / `match.group(g)` would be for that path); `none` = the group did not
+take part.  Captures inside look-around assertions are not tracked (the translator's users only ask for groups
+outside them). -/
+namespace RTV.Re
+
+abbrev Cap := Option (Nat × Nat)
+
+def repEndsCap (f : Nat → Cap → List (Nat × Cap)) (greedy : Bool) : Nat → Nat → Nat → Cap → List (Nat × Cap)
+  | 0, mn, i, c => if mn = 0 then [(i, c)] else []
+  | mx + 1, mn, i, c =>
+    let more := (f i c).flatMap fun p => repEndsCap f greedy mx (mn - 1) p.1 p.2
+    let stop := if mn = 0 then [(i, c)] else []
+    if greedy then more ++ stop else stop ++ more
+
+def endsCap (T : Tables) (s : Array Nat) (g : Nat) : RE → Nat → Cap → List (Nat × Cap)
+  | .seq a b, i, c => (endsCap T s g a i c).flatMap fun p => endsCap T s g b p.1 p.2
+  | .alt a b, i, c => endsCap T s g a i c ++ endsCap T s g b i c
+  | .rep a mn mx gr, i, c => repEndsCap (endsCap T s g a) gr mx mn i c
+  | .repU a mn gr, i, c => repEndsCap (endsCap T s g a) gr (mn + s.size + 1) mn i c
+  | .grp n a, i, c => (endsCap T s g a i c).map fun p => (p.1, if n = g then some (i, p.1) else p.2)
+  | r, i, c => (ends T s r i).map fun k => (k, c)
+
+/-- `finditer` with the capture of group `g` of each reported match: `(start, end, capture)` -/
+def findAllCapFrom (T : Tables) (s : Array Nat) (g : Nat) (r : RE) : Nat → Nat → List (Nat × Nat × Cap)
+  | 0, _ => []
+  | fuel + 1, pos =>
+    if pos > s.size then []
+    else match (endsCap T s g r pos none).head? with
+      | some (j, c) => (pos, j, c) :: findAllCapFrom T s g r fuel (if j ≤ pos then pos + 1 else j)
+      | none => findAllCapFrom T s g r fuel (pos + 1)
+
+def findAllCap (T : Tables) (s : Array Nat) (g : Nat) (r : RE) : List (Nat × Nat × Cap) :=
+  findAllCapFrom T s g r (s.size + 2) 0
+
+end RTV.Re
